@@ -53,7 +53,18 @@ fn gen(t: &mut Tape, tier: Tier) -> Scenario {
     .min(file.len());
     let (cuts, _) = adversarial_cuts(t, hl, &b, file.len());
     let cuts: Vec<usize> = cuts.into_iter().filter(|c| *c < k).collect();
-    let ops = draw_history(t, k, &cuts, true);
+    let mut ops = draw_history(t, k, &cuts, true);
+    if t.below(3) == 0 {
+        // a third of the histories offer some of their pieces through write_vectored
+        // (three slices in one call) - the caller advances by the count it returns
+        for p in ops.chunks_mut(2) {
+            if (p[0] == OP_WRITE_N || p[0] == OP_WRITE) && p[1] >= 2 && t.below(2) == 0 {
+                p[0] = OP_WRITE_VEC;
+                p[1] = (p[1] & 0xFFFF_FFFF) | (t.range(1, 7) << 32);
+            }
+        }
+        sc.set_i("vectored", 1);
+    }
     // per-symbol table: (input offset in the file after the symbol, output length)
     let mut tbl = Vec::with_capacity(b.trace.len() * 2);
     for r in &b.trace {
@@ -174,6 +185,9 @@ fn exec(sc: &Scenario, ctx: &mut Ctx) -> Vec<Violation> {
     } else {
         ctx.stats.hit("probe.complete_stream");
     }
+    if sc.i("vectored") == 1 {
+        ctx.stats.hit("arm.pieces_offered_through_write_vectored");
+    }
     if let Some(v) = one_prefix(sc, k, sc.l("ops"), ctx) {
         return vec![v];
     }
@@ -202,7 +216,7 @@ fn exec(sc: &Scenario, ctx: &mut Ctx) -> Vec<Violation> {
 pub static C15: SimpleProp = SimpleProp {
     id: "C15",
     level: "exploration",
-    rule: "one evaluation = one (valid stream, prefix length k = where the upstream died, history over that prefix) run of Stream with allow_incomplete: every sink byte is compared online with the model output; after finish the delivered length must cover every symbol whose input ends >= 64 bytes before k (reference encoder's per-symbol table); k >= header+5 (or k = 0) must finish Ok. For a sample of streams every k is enumerated (two histories each). Non-trivial = k > 0; distinct by (scenario, k) hash",
+    rule: "one evaluation = one (valid stream, prefix length k = where the upstream died, history over that prefix; a third of the histories offer some pieces as three slices through write_vectored) run of Stream with allow_incomplete: every sink byte is compared online with the model output; after finish the delivered length must cover every symbol whose input ends >= 64 bytes before k (reference encoder's per-symbol table); k >= header+5 (or k = 0) must finish Ok. For a sample of streams every k is enumerated (two histories each). Non-trivial = k > 0; distinct by (scenario, k) hash",
     runs_quick: 100_000,
     runs_thorough: 5_000_000,
     both_profiles: false,
